@@ -35,7 +35,7 @@ def list_sort(k):
 
 
 def sort_of(k):
-    if k in ('int', 'ref', 'var', 'enum'): return I
+    if k in ('int', 'ref', 'var', 'enum', 'strint'): return I
     if k == 'bool': return B
     if k == 'real': return R
     if k == 'tok': return Tok
@@ -178,7 +178,9 @@ def fresh_of_kind(name, k):
     if isinstance(k, tuple) and k[0] == 'tuple':
         return VTuple([fresh_of_kind('%s.%d' % (name, i), x) for i, x in enumerate(k[1:])])
     if isinstance(k, tuple) and k[0] == 'str':      # opaque string
-        return VStr([('opaque', name)])
+        return VStr([('opaque', fresh(name, I))])
+    if isinstance(k, tuple) and k[0] == 'joinstr':  # sep.join(list of element kind k[2])
+        return VStr([('join', k[1], fresh_of_kind(name + '.items', ('list', k[2])))])
     raise ValueError('fresh_of_kind %r' % (k,))
 
 
